@@ -8,7 +8,7 @@ from xvlib.facts import walk, show, strip_casts
 from xvlib.names import Names
 from xvlib.normform import Rat
 from xvlib import inittab
-from rules.common import noerr, sets_error, value_paths, zero_paths, strip_err_text
+from rules.common import noerr, sets_error, value_paths, zero_paths, strip_err_text, rename
 
 L = ['L1', 'L2', 'L3']
 
@@ -278,6 +278,10 @@ def dispatcher(prog, chk, names, U):
                    why='both factors tested')
 
 
+def noerr_key(key):
+    return strip_err_text(key)
+
+
 def fluor_line(prog, chk, names, U):
     f = prog.func('CS_FluorLine', unit=U)
     it, paths = run_function(prog, f)
@@ -350,6 +354,28 @@ def fluor_line(prog, chk, names, U):
                 mon = tuple(sorted(((x, 1) for x in ('Jump_from_%s(%s,%s)' % (s2, z, e), 'RadRate(%s,%d)' % (z, v), 'CS_Photo(%s,%s)' % (z, e)))))
                 if mon in r.n.t and names.parse_line(nm)[0] != s2:
                     detail += '%s is multiplied by the jump function of %s; ' % (nm, s2)
+    # the group may fail only when nothing can be summed (the whole sum is zero on the path) or when the photo cross section fails:
+    # an exit that gives up because ONE member's factor is zero drops the members that still contribute
+    total = cs * want
+    nfail = 0
+    for p in zero_paths(it, paths):
+        iv = it.interval_of(Rat.sym(ln), p)
+        if not (iv.lo == iv.hi == names.group_value['LB']):
+            continue
+        nfail += 1
+        # the value the success path returns, evaluated under this path's facts (call results carry the same symbols on every path)
+        siv = it.interval_of(rename(want, lambda s_: s_), p)
+        sum_zero = siv.lo is not None and siv.hi is not None and siv.lo == siv.hi == 0
+        if not sum_zero:
+            # the sum as written in the code (with the NULL error argument spelled out)
+            for key, fiv in p.facts.items():
+                if fiv.hi is not None and fiv.hi <= 0 and noerr_key(key) == want.canon():   # sum == 0, or sum <= 0: nothing positive to return
+                    sum_zero = True
+        photo = [ev for ev in p.events if ev.kind == 'call' and ev.name == 'CS_Photo' and ev.result is not None and it.is_zero(ev.result, p)]
+        chk.decide(sum_zero or bool(photo), 'LB-failure', U, 'CS_FluorLine', 'failure exit@%d' % p.ret_node['ln'], '%s:%d' % (U, p.ret_node['ln']),
+                   'LB_LINE fails on a path where neither the sum over all members is zero nor CS_Photo failed: members that still contribute are dropped',
+                   why='sum over the members is zero' if sum_zero else 'CS_Photo failed')
+    chk.floor('LB failure exits', nfail, 2)
     chk.decide(ok, 'LB-composition', U, 'CS_FluorLine', 'LB_LINE', '%s:%d' % (U, lb_path.ret_node['ln']),
                'L-beta must be CS_Photo * sum over members of (jump function of the member\'s own shell) * RadRate(member): %s' % detail,
                why='%d members, each with its own shell' % len(mem))
